@@ -80,7 +80,16 @@ fn main() {
                 eprintln!("vcheck: {}/{} [{}]: {}", prop.id, f.sub, f.key, f.msg);
                 println!("VIOLATION property={} replay={}", prop.id, path.display());
             }
-            std::process::exit(if out.violations.is_empty() { 0 } else { 1 });
+            for m in &out.inconclusive {
+                eprintln!("vcheck: inconclusive: {m}");
+            }
+            std::process::exit(if !out.violations.is_empty() {
+                1
+            } else if !out.inconclusive.is_empty() {
+                2
+            } else {
+                0
+            });
         }
         "replay" => {
             if args.len() < 3 {
@@ -128,6 +137,15 @@ fn main() {
             }
         }
         "child" => props::child_main(&args[2..]),
+        "pin-golden" => {
+            // pin time only: digests of the own expansion of the pinned tables
+            let r = props::c06::pin_digests().and_then(|_| props::c07::pin_digests());
+            if let Err(e) = r {
+                eprintln!("vcheck: {e}");
+                std::process::exit(2);
+            }
+            std::process::exit(0);
+        }
         "selftest" => {
             let ok = props::selftest();
             std::process::exit(if ok { 0 } else { 2 });
